@@ -48,6 +48,7 @@ def run_one(m, tier, runs, workers, seed):
         if runs:
             env["VERIF_RUNS"] = str(runs)
         env["VERIF_NO_EVIDENCE"] = "1"
+        env["VERIF_REPLAY_DIR"] = os.path.join(tmp, "replays")
         t = time.time()
         r = subprocess.run([os.path.join(HERE, "check"), m["property"], tier], env=env, capture_output=True, text=True, timeout=3600)
         lines = [l for l in r.stdout.splitlines() if l.startswith("VIOLATION") or l.startswith("  oracle=") or l.startswith("HARNESS")]
